@@ -94,6 +94,8 @@ def elem_src(style, e) -> str:
     if e == "CA":
         d = doc(style, desc_lines("CA"), "    ", params=[("x", "int", "tok_CA_p_x is a parameter.")], attrs=[("at", "int", "tok_CA_at_at is an attribute.")])
         return f"class CA:\n{d}\n\n    at: int = 1\n\n    def __init__(self, x: int):\n        ...\n\n" + fun_src(style, "CA.meth", "meth", "    ", "self") + "\n"
+    if e == "CC":
+        return "class CC:\n    at: int = 3\n\n    def plainmeth(self, p: int) -> int:\n        ...\n\n"
     d = doc(style, desc_lines("CB"), "    ")
     return f"class CB:\n{d}\n\n" + fun_src(style, "CB.meth", "meth", "    ", "self") + "\n"
 
@@ -145,7 +147,7 @@ def replay_package(style) -> str:
         return f"{i}def {name}({', '.join(x for x in (recv, 'p: int') if x)}) -> int:\n{d}\n{i}    ...\n\n"
     return (f"class CA:\n{ca}\n\n    at: int = 1\n\n    def __init__(self, x: int):\n        ...\n\n" + f("CA.meth", "meth", ind, "self")
             + f"class CB:\n{cb}\n\n    def __init__(self, x: int):\n{cbi}\n        self.at: int = x\n\n" + f("CB.meth", "meth", ind, "self")
-            + f("fa", "fa", "") + f("fb", "fb", ""))
+            + "class CC(CA):\n    at: int = 2\n\n" + f("fa", "fa", "") + f("fb", "fb", ""))
 
 
 def main(v: Verdict) -> None:
